@@ -16,18 +16,21 @@ AsVal(x) == IF x = 1 THEN HV ELSE 0
 
 Reset(kind) ==
   /\ hashed' = (kind = "built") /\ hash' = (IF kind = "built" THEN HV ELSE 0)
-  /\ pc' = [t \in Threads |-> IF t \in Getters THEN "lh" ELSE "c1"]
+  /\ pc' = [t \in Threads |-> IF t \in Getters THEN "lh" ELSE IF t \in Cloners THEN "c1" ELSE "q0"]
   /\ cnt' = [t \in Threads |-> 0]
   /\ ret' = [t \in Threads |-> None]
   /\ ch' = [t \in Cloners |-> FALSE] /\ cv' = [t \in Cloners |-> 0]
   /\ retok' = TRUE
+  /\ pk' = [t \in Comparers |-> "equal"] /\ cl' = [t \in Comparers |-> 0]
+  /\ eqres' = [t \in Comparers |-> None] /\ cmpres' = [t \in Comparers |-> None]
+  /\ eqok' = TRUE
 
 (* Key::clone runs between two grants: both loads see the same shared state *)
 CloneAtomic(t) ==
   /\ t \in Cloners /\ pc[t] = "c1"
   /\ ch' = [ch EXCEPT ![t] = hashed] /\ cv' = [cv EXCEPT ![t] = hash]
   /\ pc' = [pc EXCEPT ![t] = "cr"]
-  /\ UNCHANGED <<hashed, hash, cnt, ret, retok>>
+  /\ UNCHANGED <<hashed, hash, cnt, ret, retok, cvars>>
 
 (* real-parallel trials: facts that hold for every schedule *)
 FreeOK(r) == r.bad = 0 /\ r.returns > 0 /\ r.late_bad = 0
@@ -43,6 +46,11 @@ TraceNext ==
        [] Ev = "gh.ret.post"         -> Obs(T \in Getters /\ pc[T] = "lh" /\ cnt[T] = A[2] /\ ret[T] = AsVal(A[1]))
        [] Ev = "c03.clone.pre"       -> CloneAtomic(T) /\ Step
        [] Ev = "clone.ret.post"      -> CloneGetHash(T) /\ Step /\ ret'[T] = AsVal(A[1])
+       [] Ev = "c03.cmp.pre"         -> Obs(T \in Comparers /\ pc[T] = "q0")
+       [] Ev = "cmp.res.post"        -> /\ CompareAsCoded(T) /\ Step
+                                        /\ pk'[T] = (IF A[1] = 1 THEN "equal" ELSE "control")
+                                        /\ eqres'[T] = A[2] /\ A[3] = A[2]
+                                        /\ cmpres'[T] = (IF A[4] = 1 THEN 0 ELSE 1) /\ A[5] = A[4]
        [] Ev = "final"               -> Obs(/\ \A t \in Getters : pc[t] = "lh" /\ cnt[t] = (IF t <= A[1] THEN A[3] ELSE 0)
                                             /\ \A t \in Cloners : pc[t] = (IF t - 10 <= A[2] THEN "done" ELSE "c1"))
        [] Ev = "free"                -> Obs(FreeOK(Rec[l]))
